@@ -410,6 +410,17 @@ func (c16) Run(t TestingT, scn json.RawMessage, tape *Tape) *Outcome {
 		if got != solo && !isCtxErr(got) {
 			o.Violate("C16/neither", "both ready: response is neither solo nor the context error\n got: %s\nsolo: %s", got, solo)
 		}
+	case idxSend >= 0 && idxSend < idxReturned && c16SameStep(s.Trace, idxCancel, idxReturned):
+		// The context was already done when the call started and the executor
+		// ran to its result send without stopping at any gate, all within one
+		// scheduler step: whether the caller's select saw only ctx.Done() or
+		// both channels is decided by the Go runtime (time-slice preemption
+		// between the `go` statement and the select), so either response is legal.
+		o.Probe("both-ready-within-one-step")
+		o.NonDet = true
+		if got != solo && !isCtxErr(got) {
+			o.Violate("C16/neither", "both ready: response is neither solo nor the context error\n got: %s\nsolo: %s", got, solo)
+		}
 	default:
 		o.Probe("cancel-before-completion")
 		if !isCtxErr(got) {
@@ -448,3 +459,23 @@ func (c16) Run(t TestingT, scn json.RawMessage, tape *Tape) *Outcome {
 // expandStar keeps fault maps as they are; the "R@*" key is interpreted by the
 // resolver lookup helper below.
 func expandStar(f map[string]string) map[string]string { return f }
+
+// c16SameStep reports whether no scheduler decision (run / act) lies between the
+// later of (cancellation, start of the call) and the caller's return.
+func c16SameStep(trace []Event, idxCancel, idxReturned int) bool {
+	from := idxCancel
+	for i, e := range trace {
+		if e.Kind == "run" && e.Site == "client:call" && i > from {
+			from = i
+		}
+	}
+	if from < 0 || idxReturned < from {
+		return false
+	}
+	for i := from + 1; i < idxReturned; i++ {
+		if e := trace[i]; (e.Kind == "run" || e.Kind == "act") && !strings.HasPrefix(e.Task, "c1pre") {
+			return false
+		}
+	}
+	return true
+}
